@@ -22,6 +22,8 @@ import (
 //       never compares equal to the keys stored by the other helpers. Every MakeInterface site of the generator is
 //       the else arm of the `is interface` test of that operand's type, with ChangeInterface in the then arm.
 
+var childDerefRe = regexp.MustCompile(` ((?:\w+ \. )*\w+) \. (Left|Right) \. `)
+
 var nilGuardRe = regexp.MustCompile(`^((?:\w+ \. )*\w+) \. (Left|Right) != this \. NIL$`)
 
 func c13NilGuardTarget(c *Ctx, std *waStd, mf *waFile) {
@@ -51,13 +53,21 @@ func c13NilGuardTarget(c *Ctx, std *waStd, mf *waFile) {
 			body := " " + strings.Join(waTokens(waSrc(std, mf, ifs.Body)), " ") + " "
 			usesTested := strings.Contains(body, " "+base+" . "+side+" ")
 			usesOther := strings.Contains(body, " "+base+" . "+other+" . ")
+			derefd := base + "." + other
+			// a child link of *another* node dereferenced under this guard
+			for _, dm := range childDerefRe.FindAllStringSubmatch(body, -1) {
+				if dm[1] != base && !usesTested {
+					usesOther = true
+					derefd = dm[1] + "." + dm[2]
+				}
+			}
 			if !usesTested && !usesOther {
 				return true // the body does not work on either child (e.g. a plain return)
 			}
 			n++
 			k++
 			c.Check(usesTested || !usesOther, rule, fmt.Sprintf("%s: guard #%d on %s.%s", name, k, base, side), std.Pos(mf, ifs.Pos()), "the body works on the child the guard tested",
-				fmt.Sprintf("%s tests %s.%s against the sentinel but its body dereferences %s.%s and never %s.%s: the tested child keeps stale links (its parent index is not updated) and the other child is used unguarded", name, base, side, base, other, base, side))
+				fmt.Sprintf("%s tests %s.%s against the sentinel but its body dereferences %s and never %s.%s: the link that is used was not the one tested (it may be the sentinel, or a real node whose parent index is then left stale)", name, base, side, derefd, base, side))
 			return true
 		})
 	}
